@@ -294,7 +294,11 @@ class ExplorerScriptSsbCompiler:
     ) -> dict[str, ExplorerScriptMacro]:
         """Updates path information of all of the macros. See the field descriptions for more details"""
         for macro in macros.values():
-            macro.included__absolute_path = subfile_path
+            # (macros that the sub-file imported itself already have the path of the file they are defined in)
+            if macro.included__absolute_path is None:
+                macro.included__absolute_path = subfile_path
             if basefile_path is not None:
-                macro.included__relative_path = os.path.relpath(subfile_path, os.path.dirname(basefile_path))
+                macro.included__relative_path = os.path.relpath(
+                    macro.included__absolute_path, os.path.dirname(basefile_path)
+                )
         return macros
